@@ -29,7 +29,8 @@ ASSUMPTIONS = ["segments are delivered with a positive virtual-time gap, i.e. th
                "the client closes only after the last expected response (causal EOF), so no outcome may legitimately "
                "depend on when the close is seen",
                "options that make behaviour depend on buffered amounts (stream_large_bodies, body_size_limit) are off here (C07)"]
-EXPECTED_PROBES = ["variants_run", "pipelined", "one_byte_segments", "first_flight_cut_lt_request_line"]
+EXPECTED_PROBES = ["variants_run", "pipelined", "one_byte_segments", "first_flight_cut_lt_request_line",
+                   "surplus_after_response"]
 
 TOK = re.compile(rb"/r(\d+)")
 MODES = [("regular", 5), ("reverse:http://a.test:80", 2), ("transparent", 3)]
@@ -85,13 +86,25 @@ def generate(rng, tier):
     profile = {"adversarial": r.choice([0.0, 0.0, 0.3, 0.6]), "adversarial_reply": r.choice([0.0, 0.0, 0.3]),
                "trailers": 0.0, "bare_lf": r.choice([0.0, 0.05]), "obs_fold": 0.1, "expect": 0.08, "interim": 0.0,
                "http10": 0.1}
+    # tail family: a keep-alive origin glues an unsolicited extra response behind its first answer; the client leaves
+    # the origin time to deliver all of it before it sends the next request, so that on every segmentation the surplus
+    # is seen while no request is outstanding (the proxy must drop that connection, never serve the surplus)
+    tail_family = rng.at("c02-tail").random() < 0.12
+    if tail_family:
+        nreq, pipelined = max(nreq, 2), False
+        profile = dict(profile, adversarial_reply=0.0, reply_close=0.0)
     reqs, replies, methods = [], {}, []
     for k in range(nreq):
-        rq = G.gen_request(r, k, form=form, host="a.test" if mode != "regular" else None, profile=profile)
+        rq = G.gen_request(r, k, form=form, host="a.test" if (mode != "regular" or tail_family) else None, profile=profile)
         reqs.append(rq)
         methods.append(rq["method"])
-        rp, meta = G.gen_reply(r, k, rq["method"], profile)
+        rp, meta = G.gen_reply(r, k, rq["method"], dict(profile, tail=1.0) if tail_family and k == 0 else profile)
         rp["cuts"], rp["gaps"], rp["method"] = [], [], rq["method"]
+        if tail_family:
+            if rp.get("then") == "rst":
+                rp["then"] = "fin"
+            replies[str(k)] = rp
+            continue
         if rp.get("then") == "rst":
             # whether bytes queued in front of an RST are still delivered is the network's timing, not a
             # segmentation question: origins close with FIN here
@@ -112,6 +125,8 @@ def generate(rng, tier):
         for k, q in enumerate(reqs):
             steps.append({"op": "send", "data": G.S(q["data"]), "cuts": [], "gaps": []})
             steps.append({"op": "await", "n": k + 1, "timeout": 400.0})
+            if tail_family:
+                steps.append({"op": "sleep", "t": 1.0, "tail_wait": str(k)})
     steps.append({"op": "fin"})
     policy = []
     for _ in range(r.choice([0, 0, 1, 2])):
@@ -132,6 +147,8 @@ def generate(rng, tier):
                        "original_dst": ["a.test", 80] if mode == "transparent" else None}],
           "origins": {"*": origin}, "policy": policy, "faults": [], "settle": 250.0, "max_time": 3000.0,
           "pipelined": pipelined}
+    if tail_family:
+        sc["family"] += "-tail"
     nvar = 3 if tier == "quick" else 12
     sc["variants"] = [gen_variant(r, sc) for _ in range(nvar)]
     return sc
@@ -147,6 +164,10 @@ def apply_variant(sc, var):
         if k in s["origins"]["*"]["replies"]:
             s["origins"]["*"]["replies"][k]["cuts"] = v["cuts"]
             s["origins"]["*"]["replies"][k]["gaps"] = v["gaps"]
+    for st in s["clients"][0]["steps"]:
+        if st.get("tail_wait") is not None:
+            # wait until the origin has delivered every byte of that reply (incl. the surplus), plus a margin
+            st["t"] = 1.0 + sum(s["origins"]["*"]["replies"].get(st["tail_wait"], {}).get("gaps") or [])
     return s
 
 
@@ -250,6 +271,8 @@ def execute(sc):
     probes = {"variants_run": 0}
     if sc.get("pipelined"):
         probes["pipelined"] = 1
+    if sc.get("family", "").endswith("-tail"):
+        probes["surplus_after_response"] = 1
     faults = {}
     multi = False
     sim_s = obs0.sim_s
